@@ -25,12 +25,21 @@ type compInfo struct {
 }
 
 type ModSet struct {
-	comps map[string]compInfo
-	all   bool
-	why   string
+	comps    map[string]compInfo
+	nonfresh map[string]bool // component may be written at objects that existed before the call
+	curFresh bool            // mode for the add* methods: the write goes to an object allocated by the writer itself
+	all      bool
+	why      string
 }
 
-func newModSet() *ModSet { return &ModSet{comps: map[string]compInfo{}} }
+func newModSet() *ModSet { return &ModSet{comps: map[string]compInfo{}, nonfresh: map[string]bool{}} }
+
+func (m *ModSet) put(k string, ci compInfo) {
+	m.comps[k] = ci
+	if !m.curFresh {
+		m.nonfresh[k] = true
+	}
+}
 
 func (m *ModSet) sorted() []string {
 	var ks []string
@@ -54,6 +63,9 @@ func (m *ModSet) union(o *ModSet) {
 	}
 	for k, v := range o.comps {
 		m.comps[k] = v
+		if o.nonfresh[k] {
+			m.nonfresh[k] = true
+		}
 	}
 }
 
@@ -64,11 +76,11 @@ func (m *ModSet) addField(st types.Type, i int) {
 		m.addArr(at.Elem())
 		return
 	}
-	m.comps[compFieldT(st, i)] = compInfo{kind: 'F', t: st, idx: i}
+	m.put(compFieldT(st, i), compInfo{kind: 'F', t: st, idx: i})
 }
 
 func (m *ModSet) addArr(elem types.Type) {
-	m.comps[compArrT(elem)] = compInfo{kind: 'A', t: elem}
+	m.put(compArrT(elem), compInfo{kind: 'A', t: elem})
 }
 
 func (m *ModSet) addCell(t types.Type) {
@@ -80,18 +92,18 @@ func (m *ModSet) addCell(t types.Type) {
 	case *types.Array:
 		m.addArr(tt.Elem())
 	default:
-		m.comps[compCellT(t)] = compInfo{kind: 'C', t: t}
+		m.put(compCellT(t), compInfo{kind: 'C', t: t})
 	}
 }
 
 func (m *ModSet) addMap(mt *types.Map) {
-	m.comps[compMapPT(mt.Key(), mt.Elem())] = compInfo{kind: 'P', t: mt.Key(), t2: mt.Elem()}
-	m.comps[compMapVT(mt.Key(), mt.Elem())] = compInfo{kind: 'V', t: mt.Key(), t2: mt.Elem()}
-	m.comps[compMapL()] = compInfo{kind: 'L'}
+	m.put(compMapPT(mt.Key(), mt.Elem()), compInfo{kind: 'P', t: mt.Key(), t2: mt.Elem()})
+	m.put(compMapVT(mt.Key(), mt.Elem()), compInfo{kind: 'V', t: mt.Key(), t2: mt.Elem()})
+	m.put(compMapL(), compInfo{kind: 'L'})
 }
 
 func (m *ModSet) addGhost(name string) {
-	m.comps[compGhost(name)] = compInfo{kind: 'G', name: name}
+	m.put(compGhost(name), compInfo{kind: 'G', name: name})
 }
 
 // storeEffect records the component written by a store through addr.
@@ -166,6 +178,18 @@ func (p *Program) modSetOf(cs *ContractSet, fn *ssa.Function) *ModSet {
 	}
 	ms := newModSet()
 	p.modsets[fn] = ms // recursion: partial set; fixpoint by the outer reachable-set construction
+	if !inModule(fn) {
+		if ct, ok := cs.ByFunc[fn.String()]; ok && (ct.Pure || len(ct.Modifies) > 0) {
+			if !ct.Pure {
+				p.modifiesComps(cs, ct, ms, fn.Signature)
+			}
+			return ms
+		}
+		if !pureByPackage(fn) {
+			ms.setAll("external call " + fn.String())
+		}
+		return ms
+	}
 	reach := map[*ssa.Function]bool{}
 	var visit func(f *ssa.Function)
 	visit = func(f *ssa.Function) {
@@ -184,9 +208,14 @@ func (p *Program) modSetOf(cs *ContractSet, fn *ssa.Function) *ModSet {
 					if a := rootAlloc(x.Addr); a != nil && isPrivateAlloc(a) {
 						continue
 					}
+					ms.curFresh = freshRoot(x.Addr)
 					p.storeEffect(ms, normalizeAddr(x.Addr))
+					ms.curFresh = false
 				case *ssa.MapUpdate:
+					_, mk := x.Map.(*ssa.MakeMap)
+					ms.curFresh = mk
 					ms.addMap(x.Map.Type().Underlying().(*types.Map))
+					ms.curFresh = false
 				case *ssa.Send, *ssa.Select, *ssa.Go:
 					ms.setAll("concurrency in " + f.String())
 				case *ssa.MakeClosure:
@@ -205,6 +234,35 @@ func (p *Program) modSetOf(cs *ContractSet, fn *ssa.Function) *ModSet {
 	}
 	visit(fn)
 	return ms
+}
+
+// freshRoot: the address is rooted at an object allocated by this function
+// activation itself (Alloc / new / make), so the store cannot change any
+// object that existed when the function was called.
+func freshRoot(v ssa.Value) bool {
+	for {
+		switch x := v.(type) {
+		case *ssa.Alloc:
+			return true
+		case *ssa.FieldAddr:
+			v = x.X
+		case *ssa.IndexAddr:
+			switch y := x.X.(type) {
+			case *ssa.MakeSlice:
+				return true
+			case *ssa.Slice:
+				v = y.X
+			default:
+				if _, ok := x.X.Type().Underlying().(*types.Pointer); ok {
+					v = x.X
+				} else {
+					return false
+				}
+			}
+		default:
+			return false
+		}
+	}
 }
 
 // callEffect adds the effect of one call site (used for loops).
